@@ -155,6 +155,30 @@ func checkNumCPU(c *core.Ctx, p *progFacts) {
 							if cal2 != nil && (cal2.String() == "(*sync.WaitGroup).Add" || cal2.String() == "runtime.GOMAXPROCS") {
 								continue
 							}
+							// handed to a helper of the repository as a count: the same rule holds for the helper's parameter
+							if cal2 != nil && inRepo(cal2) && len(cal2.Blocks) > 0 {
+								followed := false
+								for k, a := range x.Common().Args {
+									if a == v && k < len(cal2.Params) {
+										follow(cal2.Params[k], d+1)
+										followed = true
+									}
+								}
+								if followed {
+									continue
+								}
+							}
+							ok2, bad = false, x
+						case *ssa.Go:
+							cal2 := x.Common().StaticCallee()
+							if cal2 != nil && inRepo(cal2) && len(cal2.Blocks) > 0 {
+								for k, a := range x.Common().Args {
+									if a == v && k < len(cal2.Params) {
+										follow(cal2.Params[k], d+1)
+									}
+								}
+								continue
+							}
 							ok2, bad = false, x
 						case *ssa.If:
 						default:
